@@ -183,12 +183,12 @@ def mux_targeted_op(draw, model, counter):
     node = nm[target]
     what = draw(st.sampled_from(["del_keep", "del_keep", "del_all", "rename", "rename",
                                  "rail", "other_kind"]))
-    if what == "del_keep":
-        return {"op": "del_comp", "target": target, "del_childs": False,
-                "cls": ["target_by_name", "mux_input"]}
-    if what == "del_all":
-        return {"op": "del_comp", "target": target, "del_childs": True,
-                "cls": ["target_by_name", "mux_input"]}
+    if what in ("del_keep", "del_all"):
+        # the input may be addressed by the name of the rail it carries
+        by_rail = bool(node["rail"]) and draw(st.booleans())
+        return {"op": "del_comp", "target": node["rail"] if by_rail else target,
+                "del_childs": what == "del_all",
+                "cls": ["target_by_rail" if by_rail else "target_by_name", "mux_input"]}
     kind = node["kind"]
     if what == "other_kind":
         kind = draw(st.sampled_from(["RLoss", "PSwitch", "LinReg", "VLoss", "Source"]))
